@@ -1,4 +1,94 @@
-/- Driver.C15 — stream `C15` (stub: replaced when the property's model is built). -/
+/-
+  Driver.C15 — stream `C15`.
+
+  payload  := (hist BOUND OKS RESULTS (event*))  |  (threads BOUND OKS RESULTS ((event*)*) (thread-index*))
+  BOUND    := shipped | (MAX CLEAR)         -- `shipped` = the constants generated from the source
+  OKS      := (0|1 …)                       -- does expression i compile?
+  RESULTS  := ((atom …) …)                  -- RESULTS[i][t] = the solo outcome of expression i on tree t
+  event    := (new e) | (ev slot t) | (q e t)
+
+  hist     → one `(obs (recent…) (sorted keys…))` per event
+  threads  → the quantum machine (`tstep`/`sysRun`, one cache operation per quantum) under the given schedule
+             and then to completion: one `(obs…)` per thread, then `(inv b b b b 1)` computed on the final cache
+             (bounds, Nodup, keys = recent; the last bit stands for "lock free") — C15c proves these do not
+             depend on the schedule
+-/
+import AHP.Model.Basic
+import AHP.Model.Cache
+import AHP.Gen.Tables
 namespace Driver.C15
-def run (_payload : String) : String := "unimplemented"
+open AHP AHP.Sexp AHP.Cache
+
+structure Tables where
+  oks : List Bool
+  results : List (List String)
+
+def Tables.compile (tb : Tables) (e : Nat) : Option Nat :=
+  if tb.oks.getD e false then some e else none
+
+def Tables.eval (tb : Tables) (v t : Nat) : String :=
+  ((tb.results.getD v []).getD t "?")
+
+def toEvent : Sexp → Option (Event Nat Nat)
+  | .list [.atom "new", e] => (toNat? e).map .new
+  | .list [.atom "ev", s, t] => do pure (.evalSlot (← toNat? s) (← toNat? t))
+  | .list [.atom "q", e, t] => do pure (.query (← toNat? e) (← toNat? t))
+  | _ => none
+
+def toBound : Sexp → Option (Nat × Nat)
+  | .atom "shipped" => some (Gen.maxCachedExpressions, Gen.clearAtOneTime)
+  | .list [m, c] => do pure (← toNat? m, ← toNat? c)
+  | _ => none
+
+def toTables (oks results : Sexp) : Option Tables :=
+  match oks, results with
+  | .list os, .list rs => do
+    let oks ← os.mapM (fun o => (toNat? o).map (· != 0))
+    let results ← rs.mapM (fun r => match r with
+      | .list xs => xs.mapM (fun x => match x with | .atom a => some a | _ => none)
+      | _ => none)
+    pure ⟨oks, results⟩
+  | _, _ => none
+
+def sortNat (xs : List Nat) : List Nat := (xs.toArray.qsort (· < ·)).toList
+
+def obsSx : Obs String → Sexp
+  | .compiled => sym "ok"
+  | .compileError => sym "cerr"
+  | .noSlot => sym "noslot"
+  | .result r => .atom r
+
+def stateSx (o : Obs String) (s : State Nat Nat) : Sexp :=
+  .list [obsSx o, .list (s.recent.map natAtom), .list ((sortNat (dictKeys s.map)).map natAtom)]
+
+def runHist (b : Nat × Nat) (tb : Tables) (evs : List (Event Nat Nat)) : Sexp :=
+  .list ((run tb.compile id tb.eval b.1 b.2 World.empty evs).map (fun p => stateSx p.1 p.2))
+
+/-- Threads under a schedule: run the given schedule on the quantum machine, then let every thread
+    finish (two quanta per event suffice); show what each thread observed and the final invariant. -/
+def runThreads (b : Nat × Nat) (tb : Tables) (ths : List (List (Event Nat Nat))) (sched : List Nat) : Sexp :=
+  let s0 : Sys Nat Nat Nat Nat String := Sys.init ths
+  let s1 := sysRun tb.compile id tb.eval b.1 b.2 s0 sched
+  let rest := (List.range ths.length).flatMap (fun i => List.replicate (2 * (ths.getD i []).length) i)
+  let s2 := sysRun tb.compile id tb.eval b.1 b.2 s1 rest
+  let c := s2.cache
+  let keys := sortNat (dictKeys c.map)
+  let bit (p : Bool) : Sexp := natAtom (if p then 1 else 0)
+  .list (s2.threads.map (fun th => Sexp.list (th.obs.map obsSx)) ++
+    [.list [sym "inv", bit (c.recent.length ≤ b.1), bit (keys.length ≤ b.1),
+            bit (c.recent.eraseDups.length == c.recent.length), bit (sortNat c.recent == keys), natAtom 1]])
+
+def run (payload : String) : String :=
+  match Sexp.parse payload with
+  | some (.list [.atom "hist", b, oks, rs, .list evs]) =>
+    match toBound b, toTables oks rs, evs.mapM toEvent with
+    | some b, some tb, some evs => (runHist b tb evs).render
+    | _, _, _ => "bad-case"
+  | some (.list [.atom "threads", b, oks, rs, .list ths, .list sched]) =>
+    match toBound b, toTables oks rs,
+          ths.mapM (fun th => match th with | .list evs => evs.mapM toEvent | _ => none), sched.mapM toNat? with
+    | some b, some tb, some ths, some sched => (runThreads b tb ths sched).render
+    | _, _, _, _ => "bad-case"
+  | _ => "bad-case"
+
 end Driver.C15
